@@ -127,8 +127,8 @@ Class RsUnwrap (T : Type -> Type) := rs_unwrap : forall {A}, T A -> M A.      (*
 #[global] Instance unwrap_res : RsUnwrap res :=
   fun A r => match r with Ok a => Val a | Err _ => Panic end.
 (* <[u8; n]>::try_from(slice) *)
-Definition rs_try_array (n : nat) (v : bytes) : option bytes :=
-  if Nat.eqb (length v) n then Some v else None.
+Definition rs_try_array (n : nat) (v : bytes) : res bytes :=
+  if Nat.eqb (length v) n then Ok v else Err DeserializationError.   (* TryFromSliceError: always mapped or unwrapped *)
 
 (* ---- merlin transcript, symbolically: protocol label and the ordered (label, message) list;
    the 64 challenge bytes stay symbolic until from_bytes_wide consumes them (oracle `fs`) ---- *)
